@@ -75,7 +75,11 @@ def gen_history(rng, case, maxlen):
                 call = {"obj": [o["kind"], o["idx"]], "g": o["g"], "slot": o["slot"], "len": 1, "form": "pdep",
                         "coef": jq(gen.dyadic_nz(rng, -2, 2, 1)), "pslot": i, "after": False}
                 v = jq(gen.dyadic_nz(rng, -2, 2, 2))
-                ops += [[rng.choice(["sample", "solve", "value"])], ["set_initial", call], ["set_value", i, v]]
+                pre_ = [[rng.choice(["sample", "solve", "value"])]]
+                if rng.random() < 0.5:
+                    # a value for the parameter is given to the transcribed OCP BEFORE any guess mentions it
+                    pre_.append(["set_value", i, jq(gen.dyadic_nz(rng, -2, 2, 2))])
+                ops += pre_ + [["set_initial", call], ["set_value", i, v]]
                 if rng.random() < 0.5:
                     ops.append([rng.choice(["sample", "solve", "value"])])
                     v = jq(gen.dyadic_nz(rng, -2, 2, 2))
@@ -133,7 +137,13 @@ def gen_history(rng, case, maxlen):
         elif r < 0.40 and scalar_param_slots(c):
             i = rng.choice(scalar_param_slots(c))
             v = jq(dyadic(rng, -2, 2, 2))
-            ops.append(["set_value", i, v])
+            if rng.random() < 0.4 and c.get("T", {}).get("param") != i:
+                # the value is handed over in ONE numpy array that the user keeps and updates in place (an MPC loop):
+                # first call, a query, the buffer overwritten, the same object passed again
+                v0 = jq(dyadic(rng, -2, 2, 2))
+                ops += [["set_value_np", i, v0], [rng.choice(["sample", "solve", "value"])], ["set_value_np", i, v]]
+            else:
+                ops.append(["set_value", i, v])
             c["param_values"]["p"][i] = v
         elif r < 0.52:
             con = gen.gen_point_constraint(rng, c, {"p_cscale": 0}) if rng.random() < 0.3 else gen.gen_path_constraint(rng, c, {"p_offset": 0.2, "roots": False, "p_cscale": 0.2})
@@ -290,6 +300,13 @@ def worker(args):
                             pass      # an outdated solution may refuse to be read
                 elif k == "set_value":
                     ocp.set_value(B.S["p"][op[1]], float(Fr(op[2])))
+                elif k == "set_value_np":
+                    buf = rec.setdefault("np_buffers", {})
+                    if op[1] in buf:
+                        buf[op[1]][...] = float(Fr(op[2]))          # in place: the same object is passed again
+                    else:
+                        buf[op[1]] = np.array([float(Fr(op[2]))])
+                    ocp.set_value(B.S["p"][op[1]], buf[op[1]])
                 elif k == "set_value_cat":
                     gl = [p_ for g_, p_, d_ in B.pdecl if g_ == ""]
                     ocp.set_value(ca.vertcat(gl[op[1]], gl[op[2]]), ca.DM([float(Fr(v)) for v in op[3]]))
@@ -363,7 +380,7 @@ def worker(args):
 def model_flags(all_ops):
     lines = []
     cls = {"sample": "HQuery unit unit", "value": "HQuery unit unit", "jacobian": "HQuery unit unit", "solve": "HQuery unit unit",
-           "set_value": "HUpd unit unit tt", "set_value_cat": "HUpd unit unit tt", "set_initial": "HUpd unit unit tt"}
+           "set_value": "HUpd unit unit tt", "set_value_np": "HUpd unit unit tt", "set_value_cat": "HUpd unit unit tt", "set_initial": "HUpd unit unit tt"}
     for ops in all_ops:
         o = "[" + "; ".join(cls.get(op[0], "HEdit unit unit tt") for op in ops if op[0] not in ("poke_method", "sol_sample")) + "]"
         lines.append("Eval vm_compute in (flags_of %s).\n" % o)
